@@ -242,14 +242,27 @@ def G3(ctx: Ctx) -> RuleResult:
                 r.ok(f'unary lexeme {lx!r} ({t.name}) has a BuiltinUnaryOperator row')
             else:
                 r.fail(f'{t.name}:{lx}', f'grammar accepts unary operator {lx!r} but no BuiltinUnaryOperator has that token', 'src/hpl/grammar.py')
-    # lookup idiom: member.token == op
-    for fn in ('_convert_unary_operator', '_convert_binary_operator'):
+    # lookup idiom: for member in Enum.__members__.values(): if member.token == op: return member.value
+    from .terms import Attr as _Attr, Loop as _Loop, Op as _Op, Sym as _Sym, norm_guards as _ng, walk as _walk
+    for fn, enum in (('_convert_unary_operator', 'BuiltinUnaryOperator'), ('_convert_binary_operator', 'BuiltinBinaryOperator')):
         fi = ctx.model.func('hpl.ast.expressions', fn, 'G3')
-        src = ast.unparse(fi.node)
-        if re.search(r'member\.token\s*==\s*op|op\s*==\s*member\.token', src) and 'return member.value' in src:
-            r.ok(f'{fn}: looks the token up by equality and returns that member')
+        op = _Sym('op')
+        outs = ctx.ev.run(fi, {fi.params()[0]: op})
+        found = False
+        raises = any(o.kind == 'raise' and 'ValueError' in repr(o.value) for o in outs)
+        for o in outs:
+            for e in o.effects:
+                if isinstance(e, _Loop) and enum in repr(e.iter) and '__members__' in repr(e.iter):
+                    for rg, val in e.returns:
+                        for t, pol in _ng(rg):
+                            if pol and isinstance(t, _Op) and t.op == '==' and op in t.args:
+                                other = [a for a in t.args if a != op][0]
+                                if isinstance(other, _Attr) and other.name == 'token' and isinstance(val, _Attr) and val.name == 'value' and val.base == other.base:
+                                    found = True
+        if found and raises:
+            r.ok(f'{fn}: member whose token equals the lexeme -> its definition; ValueError otherwise')
         else:
-            r.fail(fn, 'operator lookup is no longer "member.token == op -> member.value"', fi.where)
+            r.fail(fn, 'operator lookup is no longer "first member whose token == lexeme -> member.value, else ValueError"', fi.where)
     r.floor('operator lexemes', n, 20)
     return r
 
